@@ -135,6 +135,16 @@ def handle : List Sexp → Option String
       some (match GenK.readTurn rd p0 n0 with
         | .ok (res, p') => (match res with | none => "ok none" | some t => s!"ok some{ints t}") ++ s!" | {p'}"
         | .error e => "err " ++ errName e)
+  | .atom "KEOSTURN" :: .atom closed :: .atom cap :: .atom pos :: args => do
+      let a ← intArgs args
+      let d : List UInt8 := a.map fun z => UInt8.ofNat z.toNat
+      let c ← cap.toNat?
+      let p0 ← pos.toInt?
+      let rd : Int → Int → Option Py.Tup := fun p k =>
+        (Asn1.Stream.rawRead d (closed == "1") c p.toNat k.toNat).map fun bs => bs.map fun b => (b.toNat : Int)
+      some (match GenK.eosTurn rd p0 with
+        | .ok (res, p') => (match res with | none => "ok none" | some t => s!"ok some {if t then 1 else 0}") ++ s!" | {p'}"
+        | .error e => "err " ++ errName e)
   | .atom "KDECTAG" :: args => do
       let a ← intArgs args
       some (out (GenK.decodeTag a))
